@@ -45,12 +45,12 @@ theorem regNum_base (rb : BitVec 32) (hb : rb < 16#32) (B : Bool) (hB : B = rb.g
 /-- the memory check of the monitor on a parse whose ModRM / SIB / displacement are the parts of `[base64 + disp]` -/
 theorem memParts_checkMem (ctx : Spec.X86.Ctx) (rule : Rule) (p : Parsed) (opReg7 rb s : BitVec 32) (size : Nat) (d : BitVec 64)
     (hm64 : ctx.mode64 = true) (ho : opReg7 < 8#32) (hb : rb < 16#32) (hs6 : s ≤ 6#32)
-    (seg : Nat) (a32 : Bool) (pfx : List (BitVec 8)) (h67 : pfx.contains 0x67#8 = a32)
+    (seg : Nat) (a32 : Bool) (bc : Nat) (pfx : List (BitVec 8)) (h67 : pfx.contains 0x67#8 = a32)
     (F : MemFields p pfx (memHead opReg7 (rb &&& 7#32) (memVariant (rb &&& 7#32) (d.truncate 32) s)).1
            (memHead opReg7 (rb &&& 7#32) (memVariant (rb &&& 7#32) (d.truncate 32) s)).2
            (memDisp (d.truncate 32) s (memVariant (rb &&& 7#32) (d.truncate 32) s)) (rb.getLsbD 3) false)
     (hN : (if p.vexKind == 4 then disp8N rule p else 1) = 2 ^ s.toNat) :
-    checkMem ctx rule p (memOpBase size rb d seg a32) = .ok () := by
+    checkMem ctx rule p (memOpBase size rb d seg a32 bc) = .ok () := by
   obtain ⟨hpm, hps, hpd, hpv, hpp, hpa, hpB, hpX⟩ := F
   have hr7 : rb &&& 7#32 < 8#32 := by bv_decide
   have hvlt := memVariant_lt (rb &&& 7#32) (d.truncate 32) s
@@ -70,7 +70,7 @@ theorem memParts_checkMem (ctx : Spec.X86.Ctx) (rule : Rule) (p : Parsed) (opReg
     intro h0 h5
     rw [fmod] at h0
     exact hv5 h0 (by apply BitVec.eq_of_toNat_eq; simpa using h5)
-  apply checkMem_base64 ctx rule p (memOpBase size rb d seg a32) hd.1 a32 hm64 (by rw [hpp]; exact h67) hpa hpm hmodne rfl rfl
+  apply checkMem_base64 ctx rule p (memOpBase size rb d seg a32 bc) hd.1 a32 hm64 (by rw [hpp]; exact h67) hpa hpm hmodne rfl rfl
   · obtain ⟨mb, sb⟩ := hd
     cases sb with
     | none =>
@@ -90,7 +90,7 @@ theorem memParts_checkMem (ctx : Spec.X86.Ctx) (rule : Rule) (p : Parsed) (opReg
         rw [fb1]; exact hbaseNum
       · rw [hpX, fb2]; rfl
   · simp only [decodedDisp, hpd, hpv]
-    have : (memOpBase size rb d seg a32).disp.toNat % 2 ^ 32 = (d.truncate 32 : BitVec 32).toNat := by simp [memOpBase, BitVec.toNat_setWidth]
+    have : (memOpBase size rb d seg a32 bc).disp.toNat % 2 ^ 32 = (d.truncate 32 : BitVec 32).toNat := by simp [memOpBase, BitVec.toNat_setWidth]
     rw [this, hN]
     exact hmd
 
@@ -256,7 +256,7 @@ theorem addrForm_base (c : Model.X86.Ctx) (ctx : Spec.X86.Ctx) (rb aaa : BitVec 
   · intro rule p o7 s ho hs6 F hN
     have hx4 : rb.getLsbD 4 = false := by bv_decide
     rw [hx4] at F
-    exact memParts_checkMem ctx rule p o7 rb s size d hm64 ho hb hs6 seg a32 _ h67 F hN
+    exact memParts_checkMem ctx rule p o7 rb s size d hm64 ho hb hs6 seg a32 0 _ h67 F hN
   · intro opcode reg vvvvv z imm n hr hv hxop
     exact emitVexEvexM_base_bytes c opcode reg vvvvv rb aaa z size d imm n seg a32 hm hpe hk hvs hts hr hv hb ha hxop
 
@@ -295,7 +295,7 @@ theorem vexM_rvm_formOk_evex (c : Model.X86.Ctx) (ctx : Spec.X86.Ctx) (rule : Ru
   obtain ⟨p, hp, P, h0, h1, F, hNp, hi⟩ := evexG_parsed rule opcode reg vvvvv xb aaa z pfx _ _ _ [] AF.hpl hr hv AF.hxb AF.haaa hxop R hs A s1 s2 s3 s4
   have hc := AF.chk rule p _ _ ho7 hs6 F (by rw [hNp]; exact hN)
   simp only [emitImmediate] at *
-  exact vex_rvm_mem_formOk ctx rule p _ _ pfx k0 k1 f0 f1 f2 _ _ _ _ _ hm64 hmode hk0 hk1 R hf0 hf1 hf2 AF.hpc D AF.hvsib AF.hbc hal hp P h0 h1 hc
+  exact vex_rvm_mem_formOk ctx rule p _ _ pfx k0 k1 f0 f1 f2 _ _ _ _ _ _ hm64 hmode hk0 hk1 R hf0 hf1 hf2 AF.hpc D AF.hvsib (by simp [AF.hbc]) (by intro h; cases h) hal hp P h0 h1 hc
 
 /-- shape [reg, vvvv, MEM], VEX rule: the VEX3 or VEX2 bytes `EmitVexEvexM` emits when EVEX is not needed satisfy the monitor -/
 theorem vexM_rvm_formOk_vex (c : Model.X86.Ctx) (ctx : Spec.X86.Ctx) (rule : Rule) (opcode reg vvvvv xb : BitVec 32) (m : Mem) (mo : MemOp) (pfx : List (BitVec 8))
@@ -332,7 +332,7 @@ theorem vexM_rvm_formOk_vex (c : Model.X86.Ctx) (ctx : Spec.X86.Ctx) (rule : Rul
     obtain ⟨p, hp, P, h0, h1, F, hNp, hi⟩ := vex3G_parsed rule opcode reg vvvvv xb pfx _ _ _ [] AF.hpl hr hv hxb hxop hll R hs A s1 s2 s3 s4
     have hc := AF.chk rule p _ _ ho7 (by decide) F (by rw [hNp]; rfl)
     simp only [emitImmediate] at *
-    exact vex_rvm_mem_formOk ctx rule p _ _ pfx k0 k1 f0 f1 f2 _ _ _ 0 false hm64 hmode hk0 hk1 R hf0 hf1 hf2 AF.hpc (decorAllowed_none rule) AF.hvsib AF.hbc hal hp P h0 h1 hc
+    exact vex_rvm_mem_formOk ctx rule p _ _ pfx k0 k1 f0 f1 f2 _ _ _ 0 false false hm64 hmode hk0 hk1 R hf0 hf1 hf2 AF.hpc (decorAllowed_none rule) AF.hvsib (by simp [AF.hbc]) (by intro h; cases h) hal hp P h0 h1 hc
   · rw [if_neg h3]
     refine ⟨_, rfl, ?_⟩
     have h3' : vexPrep (xR opcode 0#32 reg vvvvv xb 0#32) opcode 0#32 &&& 0x8000807E#32 = 0#32 := by simpa using h3
@@ -342,7 +342,7 @@ theorem vexM_rvm_formOk_vex (c : Model.X86.Ctx) (ctx : Spec.X86.Ctx) (rule : Rul
     obtain ⟨p, hp, P, h0, h1, F, hNp, hi⟩ := vex2G_parsed rule opcode reg vvvvv xb pfx _ _ _ [] AF.hpl hr hv hxb hll hmm1 h3' R hs A s1 s2 s3 s4
     have hc := AF.chk rule p _ _ ho7 (by decide) F (by rw [hNp]; rfl)
     simp only [emitImmediate] at *
-    exact vex_rvm_mem_formOk ctx rule p _ _ pfx k0 k1 f0 f1 f2 _ _ _ 0 false hm64 hmode hk0 hk1 R hf0 hf1 hf2 AF.hpc (decorAllowed_none rule) AF.hvsib AF.hbc hal hp P h0 h1 hc
+    exact vex_rvm_mem_formOk ctx rule p _ _ pfx k0 k1 f0 f1 f2 _ _ _ 0 false false hm64 hmode hk0 hk1 R hf0 hf1 hf2 AF.hpc (decorAllowed_none rule) AF.hvsib (by simp [AF.hbc]) (by intro h; cases h) hal hp P h0 h1 hc
 
 /-- shape [reg, MEM], EVEX rule: the bytes of `EmitVexEvexM` when the EVEX branch is taken (the instruction has no
 VEX form, or a register / the opcode word needs EVEX) satisfy the monitor -/
@@ -370,7 +370,7 @@ theorem vexM_rm_formOk_evex (c : Model.X86.Ctx) (ctx : Spec.X86.Ctx) (rule : Rul
   obtain ⟨p, hp, P, h0, h1, F, hNp, hi⟩ := evexG_parsed rule opcode reg 0#32 xb aaa z pfx _ _ _ [] AF.hpl hr (by decide) AF.hxb AF.haaa hxop R hs A s1 s2 s3 s4
   have hc := AF.chk rule p _ _ ho7 hs6 F (by rw [hNp]; exact hN)
   simp only [emitImmediate] at *
-  exact vex_rm_mem_formOk ctx rule p _ _ pfx k0 f0 f2 _ _ _ _ hm64 hmode hk0 R hf0 hf2 AF.hpc D AF.hvsib AF.hbc hal hp P h0 h1 hc
+  exact vex_rm_mem_formOk ctx rule p _ _ pfx k0 f0 f2 _ _ _ _ _ hm64 hmode hk0 R hf0 hf2 AF.hpc D AF.hvsib (by simp [AF.hbc]) (by intro h; cases h) hal hp P h0 h1 hc
 
 /-- shape [reg, MEM], VEX rule: the VEX3 or VEX2 bytes `EmitVexEvexM` emits when EVEX is not needed satisfy the monitor -/
 theorem vexM_rm_formOk_vex (c : Model.X86.Ctx) (ctx : Spec.X86.Ctx) (rule : Rule) (opcode reg xb : BitVec 32) (m : Mem) (mo : MemOp) (pfx : List (BitVec 8))
@@ -407,7 +407,7 @@ theorem vexM_rm_formOk_vex (c : Model.X86.Ctx) (ctx : Spec.X86.Ctx) (rule : Rule
     obtain ⟨p, hp, P, h0, h1, F, hNp, hi⟩ := vex3G_parsed rule opcode reg 0#32 xb pfx _ _ _ [] AF.hpl hr (by decide) hxb hxop hll R hs A s1 s2 s3 s4
     have hc := AF.chk rule p _ _ ho7 (by decide) F (by rw [hNp]; rfl)
     simp only [emitImmediate] at *
-    exact vex_rm_mem_formOk ctx rule p _ _ pfx k0 f0 f2 _ _ 0 false hm64 hmode hk0 R hf0 hf2 AF.hpc (decorAllowed_none rule) AF.hvsib AF.hbc hal hp P h0 h1 hc
+    exact vex_rm_mem_formOk ctx rule p _ _ pfx k0 f0 f2 _ _ 0 false false hm64 hmode hk0 R hf0 hf2 AF.hpc (decorAllowed_none rule) AF.hvsib (by simp [AF.hbc]) (by intro h; cases h) hal hp P h0 h1 hc
   · rw [if_neg h3]
     refine ⟨_, rfl, ?_⟩
     have h3' : vexPrep (xR opcode 0#32 reg 0#32 xb 0#32) opcode 0#32 &&& 0x8000807E#32 = 0#32 := by simpa using h3
@@ -417,7 +417,7 @@ theorem vexM_rm_formOk_vex (c : Model.X86.Ctx) (ctx : Spec.X86.Ctx) (rule : Rule
     obtain ⟨p, hp, P, h0, h1, F, hNp, hi⟩ := vex2G_parsed rule opcode reg 0#32 xb pfx _ _ _ [] AF.hpl hr (by decide) hxb hll hmm1 h3' R hs A s1 s2 s3 s4
     have hc := AF.chk rule p _ _ ho7 (by decide) F (by rw [hNp]; rfl)
     simp only [emitImmediate] at *
-    exact vex_rm_mem_formOk ctx rule p _ _ pfx k0 f0 f2 _ _ 0 false hm64 hmode hk0 R hf0 hf2 AF.hpc (decorAllowed_none rule) AF.hvsib AF.hbc hal hp P h0 h1 hc
+    exact vex_rm_mem_formOk ctx rule p _ _ pfx k0 f0 f2 _ _ 0 false false hm64 hmode hk0 R hf0 hf2 AF.hpc (decorAllowed_none rule) AF.hvsib (by simp [AF.hbc]) (by intro h; cases h) hal hp P h0 h1 hc
 
 /-- shape [reg, vvvv, MEM, imm8], EVEX rule: the bytes of `EmitVexEvexM` when the EVEX branch is taken (the instruction has no
 VEX form, or a register / the opcode word needs EVEX) satisfy the monitor -/
@@ -445,7 +445,7 @@ theorem vexM_rvmi_formOk_evex (c : Model.X86.Ctx) (ctx : Spec.X86.Ctx) (rule : R
   obtain ⟨p, hp, P, h0, h1, F, hNp, hi⟩ := evexG_parsed rule opcode reg vvvvv xb aaa z pfx _ _ _ [imm.truncate 8] AF.hpl hr hv AF.hxb AF.haaa hxop R hs A s1 s2 s3 s4
   have hc := AF.chk rule p _ _ ho7 hs6 F (by rw [hNp]; exact hN)
   simp only [emitImmediate] at *
-  exact vex_rvmi_mem_formOk ctx rule p _ _ pfx k0 k1 f0 f1 f2 _ _ _ _ _ hm64 hmode hk0 hk1 R f3 imm hf3 hib (by simp [hi]) hf0 hf1 hf2 AF.hpc D AF.hvsib AF.hbc hal hp P h0 h1 hc
+  exact vex_rvmi_mem_formOk ctx rule p _ _ pfx k0 k1 f0 f1 f2 _ _ _ _ _ _ hm64 hmode hk0 hk1 R f3 imm hf3 hib (by simp [hi]) hf0 hf1 hf2 AF.hpc D AF.hvsib (by simp [AF.hbc]) (by intro h; cases h) hal hp P h0 h1 hc
 
 /-- shape [reg, vvvv, MEM, imm8], VEX rule: the VEX3 or VEX2 bytes `EmitVexEvexM` emits when EVEX is not needed satisfy the monitor -/
 theorem vexM_rvmi_formOk_vex (c : Model.X86.Ctx) (ctx : Spec.X86.Ctx) (rule : Rule) (opcode reg vvvvv xb : BitVec 32) (m : Mem) (mo : MemOp) (pfx : List (BitVec 8))
@@ -482,7 +482,7 @@ theorem vexM_rvmi_formOk_vex (c : Model.X86.Ctx) (ctx : Spec.X86.Ctx) (rule : Ru
     obtain ⟨p, hp, P, h0, h1, F, hNp, hi⟩ := vex3G_parsed rule opcode reg vvvvv xb pfx _ _ _ [imm.truncate 8] AF.hpl hr hv hxb hxop hll R hs A s1 s2 s3 s4
     have hc := AF.chk rule p _ _ ho7 (by decide) F (by rw [hNp]; rfl)
     simp only [emitImmediate] at *
-    exact vex_rvmi_mem_formOk ctx rule p _ _ pfx k0 k1 f0 f1 f2 _ _ _ 0 false hm64 hmode hk0 hk1 R f3 imm hf3 hib (by simp [hi]) hf0 hf1 hf2 AF.hpc (decorAllowed_none rule) AF.hvsib AF.hbc hal hp P h0 h1 hc
+    exact vex_rvmi_mem_formOk ctx rule p _ _ pfx k0 k1 f0 f1 f2 _ _ _ 0 false false hm64 hmode hk0 hk1 R f3 imm hf3 hib (by simp [hi]) hf0 hf1 hf2 AF.hpc (decorAllowed_none rule) AF.hvsib (by simp [AF.hbc]) (by intro h; cases h) hal hp P h0 h1 hc
   · rw [if_neg h3]
     refine ⟨_, rfl, ?_⟩
     have h3' : vexPrep (xR opcode 0#32 reg vvvvv xb 0#32) opcode 0#32 &&& 0x8000807E#32 = 0#32 := by simpa using h3
@@ -492,7 +492,7 @@ theorem vexM_rvmi_formOk_vex (c : Model.X86.Ctx) (ctx : Spec.X86.Ctx) (rule : Ru
     obtain ⟨p, hp, P, h0, h1, F, hNp, hi⟩ := vex2G_parsed rule opcode reg vvvvv xb pfx _ _ _ [imm.truncate 8] AF.hpl hr hv hxb hll hmm1 h3' R hs A s1 s2 s3 s4
     have hc := AF.chk rule p _ _ ho7 (by decide) F (by rw [hNp]; rfl)
     simp only [emitImmediate] at *
-    exact vex_rvmi_mem_formOk ctx rule p _ _ pfx k0 k1 f0 f1 f2 _ _ _ 0 false hm64 hmode hk0 hk1 R f3 imm hf3 hib (by simp [hi]) hf0 hf1 hf2 AF.hpc (decorAllowed_none rule) AF.hvsib AF.hbc hal hp P h0 h1 hc
+    exact vex_rvmi_mem_formOk ctx rule p _ _ pfx k0 k1 f0 f1 f2 _ _ _ 0 false false hm64 hmode hk0 hk1 R f3 imm hf3 hib (by simp [hi]) hf0 hf1 hf2 AF.hpc (decorAllowed_none rule) AF.hvsib (by simp [AF.hbc]) (by intro h; cases h) hal hp P h0 h1 hc
 
 /-- shape [reg, MEM, imm8], EVEX rule: the bytes of `EmitVexEvexM` when the EVEX branch is taken (the instruction has no
 VEX form, or a register / the opcode word needs EVEX) satisfy the monitor -/
@@ -520,7 +520,7 @@ theorem vexM_rmi_formOk_evex (c : Model.X86.Ctx) (ctx : Spec.X86.Ctx) (rule : Ru
   obtain ⟨p, hp, P, h0, h1, F, hNp, hi⟩ := evexG_parsed rule opcode reg 0#32 xb aaa z pfx _ _ _ [imm.truncate 8] AF.hpl hr (by decide) AF.hxb AF.haaa hxop R hs A s1 s2 s3 s4
   have hc := AF.chk rule p _ _ ho7 hs6 F (by rw [hNp]; exact hN)
   simp only [emitImmediate] at *
-  exact vex_rmi_mem_formOk ctx rule p _ _ pfx k0 f0 f2 _ _ _ _ hm64 hmode hk0 R f3 imm hf3 hib (by simp [hi]) hf0 hf2 AF.hpc D AF.hvsib AF.hbc hal hp P h0 h1 hc
+  exact vex_rmi_mem_formOk ctx rule p _ _ pfx k0 f0 f2 _ _ _ _ _ hm64 hmode hk0 R f3 imm hf3 hib (by simp [hi]) hf0 hf2 AF.hpc D AF.hvsib (by simp [AF.hbc]) (by intro h; cases h) hal hp P h0 h1 hc
 
 /-- shape [reg, MEM, imm8], VEX rule: the VEX3 or VEX2 bytes `EmitVexEvexM` emits when EVEX is not needed satisfy the monitor -/
 theorem vexM_rmi_formOk_vex (c : Model.X86.Ctx) (ctx : Spec.X86.Ctx) (rule : Rule) (opcode reg xb : BitVec 32) (m : Mem) (mo : MemOp) (pfx : List (BitVec 8))
@@ -557,7 +557,7 @@ theorem vexM_rmi_formOk_vex (c : Model.X86.Ctx) (ctx : Spec.X86.Ctx) (rule : Rul
     obtain ⟨p, hp, P, h0, h1, F, hNp, hi⟩ := vex3G_parsed rule opcode reg 0#32 xb pfx _ _ _ [imm.truncate 8] AF.hpl hr (by decide) hxb hxop hll R hs A s1 s2 s3 s4
     have hc := AF.chk rule p _ _ ho7 (by decide) F (by rw [hNp]; rfl)
     simp only [emitImmediate] at *
-    exact vex_rmi_mem_formOk ctx rule p _ _ pfx k0 f0 f2 _ _ 0 false hm64 hmode hk0 R f3 imm hf3 hib (by simp [hi]) hf0 hf2 AF.hpc (decorAllowed_none rule) AF.hvsib AF.hbc hal hp P h0 h1 hc
+    exact vex_rmi_mem_formOk ctx rule p _ _ pfx k0 f0 f2 _ _ 0 false false hm64 hmode hk0 R f3 imm hf3 hib (by simp [hi]) hf0 hf2 AF.hpc (decorAllowed_none rule) AF.hvsib (by simp [AF.hbc]) (by intro h; cases h) hal hp P h0 h1 hc
   · rw [if_neg h3]
     refine ⟨_, rfl, ?_⟩
     have h3' : vexPrep (xR opcode 0#32 reg 0#32 xb 0#32) opcode 0#32 &&& 0x8000807E#32 = 0#32 := by simpa using h3
@@ -567,6 +567,6 @@ theorem vexM_rmi_formOk_vex (c : Model.X86.Ctx) (ctx : Spec.X86.Ctx) (rule : Rul
     obtain ⟨p, hp, P, h0, h1, F, hNp, hi⟩ := vex2G_parsed rule opcode reg 0#32 xb pfx _ _ _ [imm.truncate 8] AF.hpl hr (by decide) hxb hll hmm1 h3' R hs A s1 s2 s3 s4
     have hc := AF.chk rule p _ _ ho7 (by decide) F (by rw [hNp]; rfl)
     simp only [emitImmediate] at *
-    exact vex_rmi_mem_formOk ctx rule p _ _ pfx k0 f0 f2 _ _ 0 false hm64 hmode hk0 R f3 imm hf3 hib (by simp [hi]) hf0 hf2 AF.hpc (decorAllowed_none rule) AF.hvsib AF.hbc hal hp P h0 h1 hc
+    exact vex_rmi_mem_formOk ctx rule p _ _ pfx k0 f0 f2 _ _ 0 false false hm64 hmode hk0 R f3 imm hf3 hib (by simp [hi]) hf0 hf2 AF.hpc (decorAllowed_none rule) AF.hvsib (by simp [AF.hbc]) (by intro h; cases h) hal hp P h0 h1 hc
 
 end AsmjitVerif.Props.C01
